@@ -1,0 +1,38 @@
+// SPDX-License-Identifier: 0BSD
+
+///////////////////////////////////////////////////////////////////////////////
+//
+/// \file       verif_hooks.h
+/// \brief      Event hooks for external conformance checking (test builds only)
+//
+//  These hooks compile to nothing unless TUKAANI_PROJECT_XZ_VERIF is defined.
+//  When defined, VERIF_EV() reports that a critical section (or another step
+//  that is visible to other threads) was just executed. The report goes
+//  through a function pointer that is NULL unless a test driver sets it.
+//
+///////////////////////////////////////////////////////////////////////////////
+
+#ifndef LZMA_VERIF_HOOKS_H
+#define LZMA_VERIF_HOOKS_H
+
+#ifdef TUKAANI_PROJECT_XZ_VERIF
+
+typedef void (*lzma_verif_ev_fn)(const char *name, const void *coder,
+		long thr, long a, long b, long c, long d);
+
+extern lzma_verif_ev_fn lzma_verif_ev;
+
+#define VERIF_EV(name, coder, thr, a, b, c, d) \
+do { \
+	if (lzma_verif_ev != NULL) \
+		lzma_verif_ev(name, coder, (long)(thr), \
+				(long)(a), (long)(b), (long)(c), (long)(d)); \
+} while (0)
+
+#else
+
+#define VERIF_EV(name, coder, thr, a, b, c, d) do { } while (0)
+
+#endif
+
+#endif
